@@ -88,7 +88,7 @@ class C08(object):
         return {'kind': 'orders', 'spec': spec, 'order_seeds': [rng.getrandbits(30) for _ in range(n)],
                 'ext_first': [rng.random() < 0.5 for _ in range(n)],
                 # the public zone API (GetSectors / LookupSector) is used while the sectors are being declared
-                'query_zone': rng.random() < 0.5}
+                'query_zone': idx % 2 == 0}
 
     def run_case(self, case):
         rec = monitors.Recorder()
